@@ -639,8 +639,75 @@ pub fn check_c15(fi: &FontInfo, req: &Req, r: &mut Rng, cnt: &mut Counters) {
     }
 }
 
+/// Relabelling with range-restricted features: clusters AND the cluster bounds of `tag[a:b]` go through the same
+/// strictly increasing map; glyphs and positions must not change.  On a generated AAT font (morx + feat: two
+/// non-contextual subtables switched by smcp / liga, forward and backward processing) and on a GSUB twin.
+fn c15_ranged(r: &mut Rng, cnt: &mut Counters, tr: &mut Option<std::fs::File>) {
+    use crate::fontgen::*;
+    let mut fonts: Vec<(String, Vec<u8>)> = Vec::new();
+    for cov in [0u32, 0x4000_0000, 0x2000_0000] {
+        let mut f = FontSpec::basic(12);
+        f.feat = Some(Feat { names: vec![FeatName { feature: 37, settings: vec![0, 1], exclusive: true, default_index: None }, FeatName { feature: 1, settings: vec![2, 3, 4, 5], exclusive: false, default_index: None }] });
+        let nonctx = |flags: u32| MorxSubtable { coverage: cov, sub_feature_flags: flags, kind: MorxKind::NonContextual(AatLookup::new(6, (1..6u16).map(|g| (g, g + 5)).collect())) };
+        f.morx = Some(Morx { version: 2, chains: vec![MorxChain { default_flags: 0, features: vec![MorxFeature { feature_type: 37, feature_setting: 1, enable_flags: 1, disable_flags: 0xFFFF_FFFF }, MorxFeature { feature_type: 1, feature_setting: 2, enable_flags: 2, disable_flags: 0xFFFF_FFFF }], subtables: vec![nonctx(1), nonctx(2)] }] });
+        fonts.push((format!("generated:morx-feat-cov{:x}", cov), build(&f)));
+    }
+    {
+        let mut f = FontSpec::basic(12);
+        let sub = |d: i16| Lookup::one(SubstSubtable::Single1 { coverage: Coverage::Glyphs(vec![1, 2, 3, 4, 5]), delta: d });
+        f.gsub = Some(Layout::with_features(vec![(*b"liga", vec![1]), (*b"smcp", vec![0])], vec![sub(5), sub(5)]));
+        fonts.push(("generated:gsub-ranged".to_string(), build(&f)));
+    }
+    let dump = std::env::var("RBV_DUMP_DIR").ok();
+    for (name, data) in &fonts {
+        let mut path = name.clone();
+        if let Some(d) = &dump {
+            let p = format!("{}/{}.ttf", d, name.replace(':', "-"));
+            let _ = std::fs::create_dir_all(d);
+            if std::fs::write(&p, data).is_ok() {
+                path = p;
+            }
+        }
+        for j in 0..150u32 {
+            let n = 2 + r.below(7) as usize;
+            let dense: Vec<u32> = match r.below(3) { 0 => (0..n as u32).collect(), 1 => (0..n as u32).map(|i| i / 2).collect(), _ => (0..n as u32).map(|i| 2 * i + 1).collect() };
+            let text: Vec<(u32, u32)> = (0..n).map(|i| (pua(r.below(5) as u32), dense[i])).collect();
+            let maxc = *dense.iter().max().unwrap();
+            let nf = 1 + r.below(2);
+            let ranges: Vec<(String, u32, u32)> = (0..nf).map(|k| {
+                let a = r.below(maxc as u64 + 2) as u32;
+                let b = a + r.below((maxc + 3 - a) as u64) as u32;
+                ((if (k + j as u64) % 2 == 0 { "smcp" } else { "liga" }).to_string(), a, b)
+            }).collect();
+            let off = r.below(5000) as u32;
+            let step = 2 + r.below(4) as u32;
+            let f = |c: u32| off + c * step;
+            let feats = |g: &dyn Fn(u32) -> u32| -> Vec<String> { ranges.iter().map(|(t, a, b)| format!("{}[{}:{}]", t, g(*a), g(*b))).collect() };
+            for d in [Direction::LeftToRight, Direction::RightToLeft] {
+                for level in 0..3u8 {
+                    let base = Req { text: text.clone(), dir: Some(d), level, flags: 3, features: feats(&|c| c), ..Default::default() };
+                    let rel = Req { text: text.iter().map(|(cp, cl)| (*cp, f(*cl))).collect(), dir: Some(d), level, flags: 3, features: feats(&f), ..Default::default() };
+                    trace(tr, &format!("ranged {} [{}]", path, fmt_req(&base)));
+                    let (Ok(o1), Ok(o2)) = (shape_catch(data, &base), shape_catch(data, &rel)) else { continue };
+                    cnt.evals += 1;
+                    if o1.iter().any(|g| g.gid > 5) && o1.iter().any(|g| g.gid <= 5) {
+                        cnt.nontrivial += 1;
+                    }
+                    let same = o1.len() == o2.len()
+                        && o1.iter().zip(o2.iter()).all(|(a, b)| a.gid == b.gid && f(a.cluster) == b.cluster && a.xa == b.xa && a.ya == b.ya && a.xo == b.xo && a.yo == b.yo);
+                    if !same {
+                        cnt.fail("C15", "relabel-with-ranged-features-changes-result", &path, &base, &format!("f=off{}+c*{} relabelled_feats={} base={} relabelled={}", off, step, rel.features.join(";"), fmt_g(&o1), fmt_g(&o2)));
+                    }
+                    cnt.bump("ranged_feature_cases");
+                }
+            }
+        }
+    }
+}
+
 fn c15(r: &mut Rng, fonts: &[FontInfo], n: u64, tr: &mut Option<std::fs::File>) {
     let mut cnt = Counters::default();
+    c15_ranged(r, &mut cnt, tr);
     // dedicated pass: every (font, script it maps) pair, texts over the script's alphabet incl. ill-formed
     // sequences (the shapers' text preprocessing must not depend on the cluster level or numbering)
     for fi in fonts.iter() {
@@ -931,8 +998,15 @@ fn c05(r: &mut Rng, fonts: &[FontInfo], n: u64, tr: &mut Option<std::fs::File>) 
         let Some(face) = Face::from_slice(&fi.data, 0) else { continue };
         let steps = r.range(2, 6);
         let mut reqs: Vec<Req> = Vec::new();
+        // a third of the histories fill the buffer through push_str (add() resets the post-context on its own)
+        let push = i % 3 == 2;
         for _ in 0..steps {
             let mut rq = gen_req_s(r, fi, 20);
+            if push {
+                // contexts come and go along the history: what one step set must not reach the next
+                rq.pre = if r.chance(1, 2) { gen_text(r, &fi.chars, 2) } else { vec![] };
+                rq.post = if r.chance(1, 2) { gen_text(r, &fi.chars, 2) } else { vec![] };
+            }
             if std::ptr::eq(fi, &limit) && r.chance(1, 3) {
                 // a text long enough to raise the length limit above its floor (64 n > 16384): what it leaves
                 // allocated must not let a later, shorter text grow further than it may on a fresh buffer
@@ -950,8 +1024,10 @@ fn c05(r: &mut Rng, fonts: &[FontInfo], n: u64, tr: &mut Option<std::fs::File>) 
                     rq.dir = None;
                     rq.script = None;
                 }
-                1 => {
-                    // long text: beyond the default 16384 budget floor
+                1 if !fi.has_morx => {
+                    // long text: beyond the default 16384 budget floor (not on AAT fonts: an insertion machine may spend
+                    // its whole operation budget, 1024 per character, on buffer shifts that are linear in the length -
+                    // bounded, as in HarfBuzz, but hours for 20000 characters)
                     let k = 16500 + r.below(6000) as usize;
                     let c = *r.pick(&fi.chars);
                     rq.text = (0..k).map(|j| (c, j as u32)).collect();
@@ -960,12 +1036,18 @@ fn c05(r: &mut Rng, fonts: &[FontInfo], n: u64, tr: &mut Option<std::fs::File>) 
             }
             reqs.push(rq);
         }
-        trace(tr, &format!("{} {} history of {}", i, fi.path, reqs.len()));
+        let fill_h = |rq: &Req, ub: UnicodeBuffer| if push { fill_push_str(rq, ub) } else { fill(rq, ub) };
+        let shape_fresh = |rq: &Req| {
+            let b = fill_h(rq, UnicodeBuffer::new());
+            let gb = rustybuzz::shape(&face, &features_of(rq), b);
+            collect(&face, &gb)
+        };
+        trace(tr, &format!("{} {} history of {} push_str={}", i, fi.path, reqs.len(), push));
         let res = catch(std::panic::AssertUnwindSafe(|| {
             let mut ub = UnicodeBuffer::new();
             let mut outs = Vec::new();
             for rq in &reqs {
-                ub = fill(rq, ub);
+                ub = fill_h(rq, ub);
                 let feats = features_of(rq);
                 let gb = rustybuzz::shape(&face, &feats, ub);
                 outs.push(collect(&face, &gb));
@@ -976,15 +1058,18 @@ fn c05(r: &mut Rng, fonts: &[FontInfo], n: u64, tr: &mut Option<std::fs::File>) 
         let Ok(outs) = res else { continue };
         for (k, rq) in reqs.iter().enumerate() {
             cnt.evals += 1;
-            let fresh = catch(std::panic::AssertUnwindSafe(|| shape_req(&face, rq)));
+            let fresh = catch(std::panic::AssertUnwindSafe(|| shape_fresh(rq)));
             let Ok(fresh) = fresh else { continue };
             if k > 0 {
                 cnt.nontrivial += 1;
             }
             if fresh != outs[k] {
                 let hist: Vec<String> = reqs[..k].iter().map(|q| format!("n={}", q.text.len())).collect();
-                cnt.fail("C05", "recycled-buffer-differs", &fi.path, rq, &format!("step={} history=[{}] fresh_len={} recycled_len={}", k, hist.join(","), fresh.len(), outs[k].len()));
+                cnt.fail("C05", if push { "recycled-buffer-differs-push_str" } else { "recycled-buffer-differs" }, &fi.path, rq, &format!("step={} history=[{}] fresh_len={} recycled_len={}", k, hist.join(","), fresh.len(), outs[k].len()));
                 break;
+            }
+            if push {
+                continue; // the remaining comparisons use the request's own cluster numbers
             }
             // repeat: same request again on a fresh buffer
             let again = catch(std::panic::AssertUnwindSafe(|| shape_req(&face, rq)));
@@ -1473,6 +1558,41 @@ fn c01gen(tr: &mut Option<std::fs::File>) {
                 f.gsub = Some(l2.clone());
                 let text: Vec<(u32, u32)> = vec![(0x0712, 0), (0x070F, 1), (0x0712, 2), (0x0712, 3), (0x002E, 4)];
                 run_case(&format!("stch-tile-kinds-{}-r{}", seq.len() * 10 + seq[0] as usize, rep), &f, Req { text, flags: 3, ..Default::default() }, &mut cnt, tr);
+            }
+        }
+    }
+    // 4e. a ligature of N components followed by combining marks on a font WITHOUT GPOS (fallback mark positioning
+    //     divides the ligature's width among its components; the component count lives in 4 bits of lig_props, so
+    //     N = 16, 32, 48 wrap to 0) - with outlines (glyph extents) and without
+    {
+        for n in [2usize, 3, 15, 16, 17, 31, 32, 33, 48, 63, 64] {
+            for outlines in [false, true] {
+                for gdef in [false, true] {
+                    let mut f = FontSpec::basic(6);
+                    f.cmap = vec![(0x61, 1), (0x62, 4), (0x0301, 3), (0x0323, 5)];
+                    f.hadv = vec![500, 600, 1400, 0, 550, 0];
+                    if outlines {
+                        f.glyf = Some(vec![None, Some([50, 0, 550, 700]), Some([40, -10, 1350, 720]), Some([-300, 600, -100, 780]), Some([0, 0, 500, 500]), Some([-250, -200, -150, -60])]);
+                    }
+                    if gdef {
+                        f.gdef = Some(Gdef { glyph_classes: vec![(1, 1), (2, 2), (3, 3), (4, 1), (5, 3)], mark_attach_classes: vec![], mark_glyph_sets: vec![] });
+                    }
+                    let lig = SubstSubtable::Ligature { coverage: Coverage::Glyphs(vec![1]), ligature_sets: vec![vec![Ligature { glyph: 2, components: vec![1; n - 1] }]] };
+                    f.gsub = Some(Layout::single_feature(*b"liga", vec![Lookup::one(lig)]));
+                    let name = format!("ligature-{}-components-marks{}{}", n, if outlines { "-glyf" } else { "" }, if gdef { "-gdef" } else { "" });
+                    for marks in [vec![0x0301u32], vec![0x0301, 0x0323], vec![0x0323, 0x0301, 0x0301]] {
+                        for d in [None, Some(Direction::RightToLeft), Some(Direction::TopToBottom)] {
+                            let mut text: Vec<(u32, u32)> = (0..n).map(|i| (0x61u32, i as u32)).collect();
+                            // a mark in the middle of the components and marks after the last one
+                            text.insert(n / 2, (0x0301, (n / 2) as u32));
+                            for (j, m) in marks.iter().enumerate() {
+                                text.push((*m, (n + j) as u32));
+                            }
+                            text.push((0x62, (n + 5) as u32));
+                            run_case(&name, &f, Req { text, flags: 3, dir: d, ..Default::default() }, &mut cnt, tr);
+                        }
+                    }
+                }
             }
         }
     }
